@@ -686,6 +686,18 @@ func ReadRequest(b *bfe_bufio.Reader, maxUriBytes int) (req *Request, err error)
 		}
 	}
 
+	// A field value holds no control byte other than HTAB (RFC 7230, section
+	// 3.2.6). NUL, a bare CR and the like are not forwarded to a backend.
+	for key, values := range req.Header {
+		for _, value := range values {
+			for i := 0; i < len(value); i++ {
+				if c := value[i]; (c < 0x20 && c != '\t') || c == 0x7f {
+					return nil, &badStringError{"malformed HTTP header value", key}
+				}
+			}
+		}
+	}
+
 	// RFC2616: Must treat
 	//	GET /index.html HTTP/1.1
 	//	Host: www.google.com
